@@ -17,7 +17,7 @@ const PROGRAMS: [&str; 5] = [
 ];
 /// handler: saves/restores R0,R1 on the supervisor stack, bumps its counter, clobbers CC, RTI
 pub fn handler(at: u16, extra: &str) -> String {
-    format!(".orig x{at:04X}\nADD R6,R6,#-1\nSTR R0,R6,#0\nADD R6,R6,#-1\nSTR R1,R6,#0\n{extra}LD R0, CNT\nADD R0,R0,#1\nST R0, CNT\nAND R1,R1,#0\nNOT R1,R1\nLDR R1,R6,#0\nADD R6,R6,#1\nLDR R0,R6,#0\nADD R6,R6,#1\nRTI\nCNT .fill 0\nKBDRP .fill xFE02\nBUF .blkw 1\n.end")
+    format!(".orig x{at:04X}\nADD R6,R6,#-1\nSTR R0,R6,#0\nADD R6,R6,#-1\nSTR R1,R6,#0\n{extra}LD R0, CNT\nADD R0,R0,#1\nST R0, CNT\nAND R1,R1,#0\nNOT R1,R1\nLDR R1,R6,#0\nADD R6,R6,#1\nLDR R0,R6,#0\nADD R6,R6,#1\nRTI\nCNT .fill 0\nKBDRP .fill xFE02\nBUF .blkw 1\nHCH .fill x23\n.end")
 }
 const H_A: u16 = 0x1F00; const H_B: u16 = 0x1F40; const H_KB: u16 = 0x1F80; const H_T: u16 = 0x1FC0;
 
@@ -25,6 +25,9 @@ const KB_EXTRA: &str = "LDI R0, KBDRP\nST R0, BUF\nTRAP x40\n";
 /// handlers A, the keyboard's and the timer's call a service routine through TRAP x40 (installed at x1E00: two instructions and RTI), so
 /// requests also arrive while an ISR is inside a trap routine: a TRAP must not change the priority level the ISR runs at.
 const TRAP_EXTRA: &str = "TRAP x40\n";
+/// handler B prints a '#' through the OS (TRAP OUT) before counting: an ISR may itself use the OS's output routines, which the interrupted
+/// program may be in the middle of
+const PRINT_EXTRA: &str = "LD R0, HCH\nOUT\n";
 const SERVICE: [(u16, u16); 4] = [(0x0040, 0x1E00), (0x1E00, 0x5260), (0x1E01, 0x1261), (0x1E02, 0x8000)];
 /// address of the handler's counter cell, through the assembler's symbol table
 fn cnt_addr(at: u16, extra: &str) -> u16 {
@@ -40,7 +43,7 @@ fn imgs() -> &'static Imgs {
     static I: OnceLock<Imgs> = OnceLock::new();
     I.get_or_init(|| Imgs {
         progs: PROGRAMS.iter().map(|s| image(s)).collect(),
-        ha: image(&handler(H_A, TRAP_EXTRA)), hb: image(&handler(H_B, "")),
+        ha: image(&handler(H_A, TRAP_EXTRA)), hb: image(&handler(H_B, PRINT_EXTRA)),
         hkb: image(&handler(H_KB, KB_EXTRA)), ht: image(&handler(H_T, TRAP_EXTRA)),
     })
 }
@@ -116,7 +119,7 @@ fn run(prog: usize, v: &Variant, ign: bool) -> Result<Final, (String, String)> {
     if let Some(e) = compare_memory(&p) { return Err((e.0, format!("{what}: {}", e.1))); }
     let im = imgs();
     let _ = im;
-    let counters = [p.sim.mem[cnt_addr(H_A, TRAP_EXTRA)].get(), p.sim.mem[cnt_addr(H_B, "")].get(), p.sim.mem[cnt_addr(H_KB, KB_EXTRA)].get(), p.sim.mem[cnt_addr(H_T, TRAP_EXTRA)].get()];
+    let counters = [p.sim.mem[cnt_addr(H_A, TRAP_EXTRA)].get(), p.sim.mem[cnt_addr(H_B, PRINT_EXTRA)].get(), p.sim.mem[cnt_addr(H_KB, KB_EXTRA)].get(), p.sim.mem[cnt_addr(H_T, TRAP_EXTRA)].get()];
     if let Variant::Devices { .. } = v {
         if counters[0] as u64 != raised[0] || counters[1] as u64 != raised[1] { return Err(("requests-lost-or-duplicated".into(), format!("{what}: handlers ran {}/{} times, requests raised {}/{}", counters[0], counters[1], raised[0], raised[1]))); }
         if taken != raised[0] + raised[1] { return Err(("taken-count".into(), format!("{what}: {taken} interrupts taken, {} raised", raised[0] + raised[1]))); }
@@ -146,7 +149,10 @@ fn check_f(prog: usize, v: &Variant, ign: bool) -> Result<(u64, bool), (String, 
     let what = format!("program {prog} {v:?}{}", if ign { " ignore_privilege=true" } else { "" });
     if f.regs != b.regs { return Err(("transparency:registers".into(), format!("{what}: final registers {:x?}, uninterrupted run {:x?}", f.regs, b.regs))); }
     if f.cc != b.cc { return Err(("transparency:condition-codes".into(), format!("{what}: final CC {:03b}, uninterrupted {:03b}", f.cc, b.cc))); }
-    if f.display != b.display { return Err(("transparency:output".into(), format!("{what}: output {:x?}, uninterrupted {:x?}", f.display, b.display))); }
+    // handler B's own '#' characters are not the program's output: everything else must be exactly the uninterrupted output, and there is one '#' per time B ran
+    let own: Vec<u8> = f.display.iter().copied().filter(|c| *c != 0x23).collect();
+    if own != b.display { return Err(("transparency:output".into(), format!("{what}: output {:x?} (the ISR's own '#' removed: {own:x?}), uninterrupted {:x?}", f.display, b.display))); }
+    if f.display.iter().filter(|c| **c == 0x23).count() as u16 != f.counters[1] { return Err(("transparency:isr-output".into(), format!("{what}: handler B ran {} times but {} of its '#' characters were displayed: {:x?}", f.counters[1], f.display.iter().filter(|c| **c == 0x23).count(), f.display))); }
     if let Some(a) = (0..f.user_mem.len()).find(|a| f.user_mem[*a] != b.user_mem[*a]) { return Err(("transparency:user-memory".into(), format!("{what}: mem[x{:04X}] = x{:04X}, uninterrupted x{:04X}", a + 0x3000, f.user_mem[a], b.user_mem[a]))); }
     Ok((f.polls, f.counters.iter().any(|c| *c > 0)))
 }
@@ -161,7 +167,7 @@ fn schedule(mut s: u64, k: usize, slots: u64) -> Option<Vec<(u64, u8)>> {
 }
 
 pub fn run_engine(ctx: &Ctx) -> Report {
-    let mut rep = Report::new("5 user programs (arithmetic loop branching on every CC; LD/ST/LDR/STR/LDI/STI; nested JSR with a stack through R6; PUTS and OUT so that requests land inside OS code; straight line) ending in HALT; two harness devices (vectors x90/x91, level-triggered until taken; the first one's, the keyboard's and the timer's handlers call a service routine through TRAP x40, so requests also arrive while an ISR is inside a trap routine) with priority pairs from {1,4,7}^2 (unequal), the first pair also with ignore_privilege set; schedules: every placement of 0,1,2 (thorough 3 on the shorter programs) request-raise events over (poll index x device) up to the program's length; plus the real keyboard interrupt (IE set, bytes typed by 'another thread' before every pair of polls) and the real TimerDevice with exact n=1..baseline+1. Every run is in lock-step with RefLC3 (gating: taken iff priority > PSR priority and highest wins; entry: supervisor bit, priority, PC = mem[x100+v], R6 = SSP-2, pushed PC/PSR, saved SP, instruction count unchanged) and its final R0-R7, CC, user memory and output are compared with the 0-interrupt run; handler counters = requests raised. non-trivial = schedules in which an interrupt was taken");
+    let mut rep = Report::new("5 user programs (arithmetic loop branching on every CC; LD/ST/LDR/STR/LDI/STI; nested JSR with a stack through R6; PUTS and OUT so that requests land inside OS code; straight line) ending in HALT; two harness devices (vectors x90/x91, level-triggered until taken; the first one's, the keyboard's and the timer's handlers call a service routine through TRAP x40, the second one's handler prints a '#' through TRAP OUT, so requests also arrive while an ISR is inside a trap routine) with priority pairs from {1,4,7}^2 (unequal), the first pair also with ignore_privilege set; schedules: every placement of 0,1,2 (thorough 3 on the shorter programs) request-raise events over (poll index x device) up to the program's length; plus the real keyboard interrupt (IE set, bytes typed by 'another thread' before every pair of polls) and the real TimerDevice with exact n=1..baseline+1. Every run is in lock-step with RefLC3 (gating: taken iff priority > PSR priority and highest wins; entry: supervisor bit, priority, PC = mem[x100+v], R6 = SSP-2, pushed PC/PSR, saved SP, instruction count unchanged) and its final R0-R7, CC, user memory and output are compared with the 0-interrupt run; handler counters = requests raised. non-trivial = schedules in which an interrupt was taken");
     let base = baselines();
     let npr = ctx.pick(3usize, 6usize);
     for prog in 0..PROGRAMS.len() {
